@@ -677,6 +677,13 @@ func genC09(g *G) {
 	// retried process objects (real signing processes; FROST needs 10 s per run: thorough tier, started ahead)
 	if g.Thorough() {
 		c10prefetch("rerun", c9rerunRun, "fsigning", "2")
+		c10prefetch("sigdrop", c9sigdropRun, "fsigning")
+	}
+	// a finished signing whose result nobody takes any more, then the caller's cancellation (real 2-relayer signing)
+	// (not in the race-detector re-run: the probe that tells when the party has finished reads the process object's
+	// internals from the harness goroutine, which the detector would rightly call a race - of the harness)
+	if os.Getenv("VERIF_RACE") == "" {
+		g.Emit("sigdrop", "esigning")
 	}
 	for _, n := range []string{"1", "2", "3"} {
 		g.Emit("rerun", "esigning", n)
@@ -799,6 +806,9 @@ func genC09(g *G) {
 	}
 	if g.Thorough() {
 		g.Emit("rerun", "fsigning", "2")
+		if os.Getenv("VERIF_RACE") == "" {
+			g.Emit("sigdrop", "fsigning")
+		}
 		g.Emit("rerun", "esigning", "5")
 	}
 	// random sequences of sessions over two ids in any order, retried sessions mixed in
